@@ -9,6 +9,7 @@
 package c01
 
 import (
+	"os"
 	"testing"
 	"time"
 
@@ -18,10 +19,10 @@ import (
 
 func TestCheck(t *testing.T) {
 	hist.ServeIfWorker(t)
+	if f := os.Getenv("VERIF_REPLAY"); f != "" {
+		hist.Replay(t, f)
+	}
 	run := vlib.Start("C01", "model_checking")
-	pool := vlib.NewPool()
-	defer pool.Close()
-
 	full := []string{"tx:t1", "tx:tl", "tx:g1", "tx:gb", "tx:s1", "tx:sb", "tx:rb", "tx:ck", "part", "heal", "cut", "restart", "restartP", "retain", "demote", "handoff"}
 	type job struct {
 		name   string
@@ -34,8 +35,8 @@ func TestCheck(t *testing.T) {
 		{"wal-257p-lz4", hist.Config{PageSize: 512, Start: 257, WAL: true, Compress: true, R2Starts: "partitioned", Alphabet: full}, 3, 50 * time.Second},
 		// Non-initial start states: R1 lagging by two behind a partition; a former primary ahead by one of an isolated new primary.
 		{"journal-lagging-R1", hist.Config{PageSize: 512, Start: 3, R2Starts: "partitioned", Alphabet: full, Prelude: []string{"part:R1", "tx:a:t1", "tx:a:g1"}}, 3, 40 * time.Second},
-		{"wal-fork-ahead-by-one", hist.Config{PageSize: 512, Start: 3, WAL: true, R2Starts: "partitioned", Alphabet: full, Prelude: []string{"part:R1", "tx:a:tl", "demote"}}, 2, 40 * time.Second},
-		{"journal-fork-ahead-by-one", hist.Config{PageSize: 512, Start: 3, R2Starts: "absent", Alphabet: append([]string{"start"}, full...), Prelude: []string{"part:R1", "tx:a:g1", "demote"}}, 2, 40 * time.Second},
+		{"wal-fork-ahead-by-one", hist.Config{PageSize: 512, Start: 3, WAL: true, R2Starts: "partitioned", Alphabet: full, Prelude: []string{"part:R1", "tx:a:tl", "demote"}}, 3, 40 * time.Second},
+		{"journal-fork-ahead-by-one", hist.Config{PageSize: 512, Start: 3, R2Starts: "absent", Alphabet: append([]string{"start"}, full...), Prelude: []string{"part:R1", "tx:a:g1", "demote"}}, 3, 40 * time.Second},
 	}
 	if run.Thorough() {
 		jobs = []job{
@@ -49,55 +50,11 @@ func TestCheck(t *testing.T) {
 			{"journal-fork-ahead-by-one", hist.Config{PageSize: 512, Start: 3, R2Starts: "absent", Alphabet: append([]string{"start"}, full...), Prelude: []string{"part:R1", "tx:a:g1", "demote"}}, 4, 10 * time.Minute},
 		}
 	}
-	var all []any
-	states, transitions, maxDepth := 0, 0, 0
-	exhaustive := true
-	var classes vlib.Distinct
-	var samples []any
+	var hj []hist.Job
 	for _, j := range jobs {
-		var st hist.Stats
-		hist.Search(run, pool, j.cfg, j.depth, j.budget, &st)
-		all = append(all, map[string]any{"job": j.name, "config": j.cfg, "depth_bound": j.depth, "states": st.States, "transitions": st.Transitions,
-			"new_states_per_depth": st.PerDepth, "depth_completed": st.DepthDone, "frontier_exhausted": st.Exhausted, "capped": st.Capped, "classes": st.Classes.N()})
-		states += st.States
-		transitions += st.Transitions
-		if st.DepthDone > maxDepth {
-			maxDepth = st.DepthDone
-		}
-		if st.Capped != "" {
-			exhaustive = false
-		}
-		for k, v := range st.Classes.Top(1000) {
-			for i := 0; i < v; i++ {
-				classes.Add(k)
-			}
-		}
-		samples = append(samples, st.Samples...)
-		if run.NViolations() > 0 {
-			break
-		}
+		hj = append(hj, hist.Job{Name: j.name, Cfg: j.cfg, Depth: j.depth, Budget: j.budget})
 	}
-	if len(samples) == 0 {
-		samples = append(samples, "no non-root state sampled")
-	}
-	cov := map[string]any{
-		"states":                        states,
-		"transitions":                   transitions,
-		"traces_validated_against_impl": transitions,
-		"max_depth":                     maxDepth,
-		"exhaustive":                    exhaustive,
-		"jobs":                          all,
-		"distinct_event_outcome_classes": classes.N(),
-		"samples":                       samples,
-		"rule":                          "BFS over event histories on a real 3-node cluster; a state is the history that reaches it (replayed from scratch on fresh stores), merged by a canonical key over durable files, decoded LTX directories and DB.VerifDump() private caches; every history is an implementation trace. exhaustive=true means every history up to the depth bound was executed.",
-	}
-	if transitions < 10 && run.NViolations() == 0 {
-		run.HarnessError("vacuous: %d transitions", transitions)
-	}
-	run.Finish(cov, []string{
-		"Kernel page cache, POSIX lock owners and SQLite are simulated (DESIGN.md §2.3/2.4); HTTP client and server code are real, the socket is an in-process pipe.",
-		"Quiescence is on the testing/synctest fake clock: up to 70 fake seconds for a single primary, 40 for convergence.",
-		"Page contents are a function of (page, per-page version) so that histories reaching the same logical state merge.",
-		"Mid-burst interleavings (stream vs commit at lock granularity) are the schedule search's subject (see C10/C11/C13 engines), not this history search.",
-	})
+	cov := hist.RunJobs(run, hj)
+	run.Finish(cov, append(hist.CommonAssumptions,
+		"Mid-burst interleavings (stream vs commit at lock granularity) are the schedule search's subject (see C10/C11/C13 engines), not this history search."))
 }
